@@ -281,7 +281,8 @@ PROPS['C20'] = dict(
     monitors=M.MONITORS['C20'], nontrivial=has(('res ok', 'sres err', 'sres found')), stats=op_stats, divergence_is_witness=True,
     divergence_text='an asset created while the simulation runs must behave like the model\'s constructor + immediate '
                     'initialisation (= the same asset created before the start, shifted)',
-    rule='family sys: assets of every kind constructed before the first run, between runs and from inside events; '
+    rule='family sys: assets of every kind constructed before the first run, between runs and from inside events (family sysi, '
+         'implementation only: also from inside another asset\'s initialize and from the start-up hook of a user\'s ResourceManager); '
          'non-trivial = a creation happened while the simulation was initialised',
     assumptions=['new devices are wired to existing devices that are not sinks'],
 )
@@ -301,7 +302,7 @@ PROPS['C14'] = dict(
     rule='families env and floor against the model (= determinism transfer, scenarios carry random asset-id offsets), plus '
          'metamorphic runs of the real code: same seed twice with the unpatched random weights, fresh interpreters with '
          'different PYTHONHASHSEED, split runs vs one run with keyed weights, simulate_multiple_times in-process vs worker '
-         'processes; non-trivial = same-time events with different priorities executed or an event paused',
+         'processes, groups whose parallel input machines tie exactly re-run after varying amounts of allocated objects; non-trivial = same-time events with different priorities executed or an event paused',
     assumptions=['worker-process equality and independence from hash order / object identity are CHECKED, not proved'],
     partial=['worker processes, hash order: checked only (cannot be proved about CPython from here)'],
 )
